@@ -380,6 +380,9 @@ func (s *StoreSim) RunCase(c *StoreCase, input, prev []byte, rd *storeReader) (*
 		}
 		buf := present(input, prev, how)
 		s.decodeNo++
+		if s.decodeNo%50000 == 0 {
+			os.Stderr.WriteString(".") // progress for the parent's silence watchdog
+		}
 		exact := s.decodeNo%16 == 0 || rd.stateful
 		res := s.decodeOnce(p, rd, buf, exact)
 		s.St.Decodes++
